@@ -18,7 +18,10 @@ CONSTANTS
   WithDangling,   \* undefined objects besides free ones
   WithNullObj,    \* objects whose value is null
   WithScalarObj,  \* objects whose value is a scalar
-  CallOps         \* subset of {"ref", "copyref", "arr1", "arr2", "obj", "redirect"}
+  CallOps,        \* subset of {"ref", "copyref", "arr1", "arr2", "obj", "redirect"}
+  WithTwin,       \* object N is a reference with the number of object 1 and another generation
+  CFIndirect,     \* streams with an explicit /Crypt filter also with indirect first array elements
+  PlainIdentity   \* unencrypted sources also have streams with /Crypt /Identity
 
 RefSlots == {Rf(m) : m \in Nodes}
 EmptyD == IF WithDict THEN {Di(<<>>, <<>>)} ELSE {}
@@ -53,11 +56,17 @@ Layout(l) == CASE l = "none" -> [k |-> <<>>, e |-> <<>>]
                [] l = "array" -> [k |-> <<"DecodeParms", "Filter">>, e |-> <<Ar(<<Rf(N + 2)>>), Ar(<<Rf(N + 1)>>)>>]
                [] l = "chain" -> [k |-> <<"DecodeParms", "Filter">>, e |-> <<Parms, Rf(N + 3)>>]
 StreamSlots == {Sc(a) : a \in ScalarAtoms} \cup {Ar(<<>>)} \cup RefSlots
-CFs == IF SrcEnc = "none" THEN {"default"} ELSE {"default", "identity", "named"}
+CFs == IF SrcEnc = "none"
+       THEN (IF PlainIdentity THEN {[cf |-> "default", cfi |-> FALSE], [cf |-> "identity", cfi |-> FALSE]}
+                                    \cup (IF CFIndirect THEN {[cf |-> "identity", cfi |-> TRUE]} ELSE {})
+             ELSE {[cf |-> "default", cfi |-> FALSE]})
+       ELSE {[cf |-> "default", cfi |-> FALSE], [cf |-> "identity", cfi |-> FALSE], [cf |-> "named", cfi |-> FALSE]}
+            \cup (IF CFIndirect THEN {[cf |-> "identity", cfi |-> TRUE], [cf |-> "named", cfi |-> TRUE]} ELSE {})
+MCTwin == [n \in Nodes |-> IF WithTwin /\ n = N THEN 1 ELSE n]
 Streams == IF ~WithStream THEN {}
-           ELSE {[t |-> "st", k |-> Layout(l).k, e |-> Layout(l).e, body |-> "b1", cf |-> c] :
+           ELSE {[t |-> "st", k |-> Layout(l).k, e |-> Layout(l).e, body |-> "b1", cf |-> c.cf, cfi |-> c.cfi] :
                     l \in StreamLayouts, c \in CFs}
-                \cup {[t |-> "st", k |-> Layout(l).k \o <<"K">>, e |-> Layout(l).e \o <<x>>, body |-> "b1", cf |-> c] :
+                \cup {[t |-> "st", k |-> Layout(l).k \o <<"K">>, e |-> Layout(l).e \o <<x>>, body |-> "b1", cf |-> c.cf, cfi |-> c.cfi] :
                     l \in StreamLayouts, c \in CFs, x \in StreamSlots}
 
 MCNodeKinds ==
